@@ -262,7 +262,9 @@ class HistogramVectorizer(BaseEstimator, TransformerMixin):
         """
         Applies the transform to a single row of the data.
         """
-        return pd.cut(vector, self.bin_intervals_).value_counts()
+        # Counts in bin order: a Series' value_counts() sorts by frequency by default,
+        # a Categorical's (list / ndarray input) does not take ``sort`` at all.
+        return pd.Series(pd.cut(vector, self.bin_intervals_)).value_counts(sort=False)
 
     def transform(self, X):
         """
